@@ -759,5 +759,189 @@ theorem expandLoop_spec (te : Nat) : ∀ (cs : List α) (st st' : St α D),
       · exact i5 c' hc' h1 h2 π hπ
 
 
+/-! ### the main loop -/
+
+/-- the loop invariant at the loop head (S1, S2, S3) -/
+structure Inv (st : St α D) : Prop where
+  ok : StoreOK asn C cvrs winner st.store
+  fr : FInv st
+  cover : ∀ π, Alt C.candidates winner π → SC st π
+
+theorem FInv.tail {st : St α D} {te : Nat} {rest : List Nat} (h : FInv st) (hfr : st.fr = te :: rest) :
+    FInv { st with fr := rest } := by
+  refine ⟨fun id hid => h.inRange id (by rw [hfr]; exact List.mem_cons_of_mem _ hid),
+    fun id hid => h.infExp id (by rw [hfr]; exact List.mem_cons_of_mem _ hid), ?_, h.lbFin⟩
+  have := h.infPre
+  rw [hfr] at this
+  exact (List.pairwise_cons.1 this).2
+
+/-- a complete order that ends in a strictly shorter tail `t` passes through exactly one child of `t` -/
+theorem alt_through (hC : C.candidates.Nodup) {π t : List α} (hπ : π.Perm C.candidates) (ht : t <:+ π)
+    (hlen : t.length < C.candidates.length) :
+    ∃ c, (c :: t) <:+ π ∧ c ∈ C.candidates ∧ c ∉ t := by
+  obtain ⟨pre, rfl⟩ := ht
+  have hnd : (pre ++ t).Nodup := hπ.nodup_iff.2 hC
+  have hl := hπ.length_eq
+  rw [List.length_append] at hl
+  have hne : pre ≠ [] := by
+    intro h; subst h; simp at hl; omega
+  obtain ⟨pre', c, rfl⟩ : ∃ pre' c, pre = pre' ++ [c] :=
+    ⟨pre.dropLast, pre.getLast hne, (List.dropLast_concat_getLast hne).symm⟩
+  refine ⟨c, ⟨pre', by simp⟩, hπ.mem_iff.1 (by simp), ?_⟩
+  intro hct
+  exact (List.nodup_append.1 hnd).2.2 c (by simp) c hct rfl
+
+theorem LBfin_maxLB2 {a b : LB D} (ha : LBfin a) (hb : LBfin b) : LBfin (maxLB2 a b) := by
+  rcases maxLB2_cases a b with h | h <;> rw [h] <;> assumption
+
+/-- what remains to be shown after the popped node `te` has been processed: everything that was
+covered by the rest of the frontier stays covered, and so does everything `te` still accounted for -/
+theorem inv_of_step (hC : C.candidates.Nodup) {st st2 : St α D} {te : Nat} {rest : List Nat}
+    (hI : Inv asn C cvrs winner st) (hfr : st.fr = te :: rest)
+    (hok2 : StoreOK asn C cvrs winner st2.store) (hF2 : FInv st2)
+    (h1 : ∀ π, SC { st with fr := rest } π → SC st2 π)
+    (h2 : ∀ π, Alt C.candidates winner π → (st.store.get te).tail <:+ π → Eff (st.store.get te) st.lb π →
+      SC st2 π) : Inv asn C cvrs winner st2 := by
+  refine ⟨hok2, hF2, ?_⟩
+  intro π hπ
+  obtain ⟨w, hw, hw1, hw2⟩ := hI.cover π hπ
+  rw [hfr] at hw
+  simp only [List.mem_cons] at hw
+  rcases hw with rfl | hw
+  · exact h2 π hπ hw1 hw2
+  · exact h1 π ⟨w, hw, hw1, hw2⟩
+
+theorem mainLoop_spec (hC : C.candidates.Nodup) : ∀ (fuel : Nat) (st st' : St α D),
+    mainLoop asn C (cvrs.filterMap id) (nebTable asn C cvrs) fuel st = Res.ok (some st') →
+    Inv asn C cvrs winner st →
+    Inv asn C cvrs winner st' ∧ ∃ te rest, st'.fr = te :: rest ∧ (st'.store.get te).expandable = false := by
+  intro fuel
+  induction fuel with
+  | zero => intro st st' h; simp [mainLoop] at h
+  | succ fuel ih =>
+    intro st st' h hI
+    rw [mainLoop] at h
+    split at h
+    · cases h
+    · rename_i te rest hfr
+      simp only at h
+      split at h
+      · -- exit: the first frontier node is not expandable
+        rename_i hne
+        cases h
+        exact ⟨hI, te, rest, hfr, by simpa using hne⟩
+      · rename_i hne
+        have hexp : (st.store.get te).expandable = true := by simpa using hne
+        have hte : te < st.store.size := hI.fr.inRange te (by rw [hfr]; exact List.mem_cons_self)
+        have hF0 : FInv ({ st with fr := rest } : St α D) := hI.fr.tail hfr
+        have hteOK := hI.ok te hte
+        have hlen := hteOK.expLen hexp
+        -- the expansion step, shared by the two places where it occurs
+        have expandCase : ∀ (st1 : St α D), te < st1.store.size → StoreOK asn C cvrs winner st1.store →
+            FInv st1 → (st1.store.get te).tail = (st.store.get te).tail →
+            (st1.store.get te).expandable = true →
+            (∀ π, SC { st with fr := rest } π → SC st1 π) →
+            (∀ π, Alt C.candidates winner π → (st.store.get te).tail <:+ π →
+              (∀ c ∈ (st.store.get te).explored, ¬ (c :: (st.store.get te).tail) <:+ π) →
+              ∀ c, (c :: (st.store.get te).tail) <:+ π → c ∈ (st1.store.get te).explored → SC st1 π) →
+            leLB (st.store.get te).estimate st.lb = false →
+            (if (expandLoop asn C (cvrs.filterMap id) (nebTable asn C cvrs) te C.candidates st1).1 = true
+              then Res.ok none
+              else mainLoop asn C (cvrs.filterMap id) (nebTable asn C cvrs) fuel
+                (expandLoop asn C (cvrs.filterMap id) (nebTable asn C cvrs) te C.candidates st1).2)
+              = Res.ok (some st') →
+            Inv asn C cvrs winner st' ∧
+              ∃ te rest, st'.fr = te :: rest ∧ (st'.store.get te).expandable = false := by
+          intro st1 hte1 hok1 hF1 htail1 hexp1 hsc1 hexpl hnle hrun
+          cases hr : expandLoop asn C (cvrs.filterMap id) (nebTable asn C cvrs) te C.candidates st1 with
+          | mk r1 st2 =>
+            rw [hr] at hrun
+            cases r1 with
+            | true => simp at hrun
+            | false =>
+              simp only [Bool.false_eq_true, if_false] at hrun
+              obtain ⟨e1, e2, e3, e4, e5, e6, e7⟩ := expandLoop_spec asn C cvrs winner te C.candidates st1 st2 hr
+                hte1 hok1 hF1 (fun c hc => hc) hexp1
+              apply ih st2 st' hrun
+              apply inv_of_step asn C cvrs winner hC hI hfr e1 e2 (fun π hsc => e4 π (hsc1 π hsc))
+              intro π hπ hthru heff
+              rcases heff with heff | heff
+              · rw [heff] at hnle; cases hnle
+              · obtain ⟨c, hc1, hc2, hc3⟩ := alt_through C hC hπ.1 hthru hlen
+                by_cases hce : c ∈ (st1.store.get te).explored
+                · exact e4 π (hexpl π hπ hthru heff c hc1 hce)
+                · rw [htail1] at e5
+                  exact e5 c hc2 hc3 hce π hc1
+        cases hp : pruneChecks ({ st with fr := rest } : St α D) te with
+        | some stp =>
+          rw [hp] at h
+          simp only at h
+          obtain ⟨p1, p2, p3, p4, p5⟩ := pruneChecks_spec asn C cvrs winner ({ st with fr := rest } : St α D) stp te hte hI.ok hF0 hp
+          apply ih stp st' h
+          exact inv_of_step asn C cvrs winner hC hI hfr p1 p2 p4 (fun π _ hthru _ => p5 π hthru)
+        | none =>
+          rw [hp] at h
+          simp only at h
+          have hnle := pruneChecks_none hp
+          split at h
+          · -- dive first
+            rename_i hdn
+            split at h
+            · cases h
+            · cases h
+            · rename_i sd hdive
+              split at h
+              · cases h
+              · rename_i hinf
+                have hinf' : LB.isInf sd.lb = false := by simpa using hinf
+                obtain ⟨next, hnc, hnt, d1, d2, d3, d4, d5, d6, d7, d8⟩ :=
+                  performDive_spec asn C cvrs winner _ te ({ st with fr := rest } : St α D) sd hdive hinf' hte hI.ok hF0 hexp
+                have hsdte_tail : (sd.store.get te).tail = (st.store.get te).tail := by
+                  have : sd.store.get te = _ := d8
+                  rw [this]
+                have hsdte_exp : (sd.store.get te).expandable = true := by
+                  have : sd.store.get te = _ := d8
+                  rw [this]; exact hexp
+                have hsdte_expl : (sd.store.get te).explored = (st.store.get te).explored ++ [next] := by
+                  have : sd.store.get te = _ := d8
+                  rw [this]
+                have hsdte_anc : (sd.store.get te).bestAnc = (st.store.get te).bestAnc := by
+                  have : sd.store.get te = _ := d8
+                  rw [this]
+                have hF1 : FInv ({ sd with lb := maxLB2 st.lb sd.lb } : St α D) :=
+                  d2.setLb _ (LBfin_maxLB2 hI.fr.lbFin d2.lbFin)
+                have hsc1 : ∀ π, SC { st with fr := rest } π → SC ({ sd with lb := maxLB2 st.lb sd.lb } : St α D) π := by
+                  intro π hsc
+                  exact (d4 π hsc).mono (fun x hx => ⟨hx, rfl, rfl, rfl⟩) (le_maxLB2_right _ _)
+                have hte1 : te < sd.store.size := Nat.lt_of_lt_of_le hte d6
+                cases hp2 : pruneChecks ({ sd with lb := maxLB2 st.lb sd.lb } : St α D) te with
+                | some stp =>
+                  rw [hp2] at h
+                  simp only at h
+                  obtain ⟨p1, p2, p3, p4, p5⟩ := pruneChecks_spec asn C cvrs winner ({ sd with lb := maxLB2 st.lb sd.lb } : St α D) stp te hte1 d1 hF1 hp2
+                  apply ih stp st' h
+                  refine inv_of_step asn C cvrs winner hC hI hfr p1 p2 (fun π hsc => p4 π (hsc1 π hsc)) ?_
+                  intro π _ hthru _
+                  apply p5
+                  show (sd.store.get te).tail <:+ π
+                  rw [hsdte_tail]; exact hthru
+                | none =>
+                  rw [hp2] at h
+                  simp only at h
+                  refine expandCase ({ sd with lb := maxLB2 st.lb sd.lb } : St α D) hte1 d1 hF1 hsdte_tail hsdte_exp hsc1 ?_ hnle h
+                  intro π hπ hthru heff c hc1 hce
+                  have hce' : c ∈ (st.store.get te).explored ++ [next] := by
+                    rw [← hsdte_expl]; exact hce
+                  simp only [List.mem_append, List.mem_singleton] at hce'
+                  rcases hce' with hce' | rfl
+                  · exact absurd hc1 (heff c hce')
+                  · show SC ({ sd with lb := maxLB2 st.lb sd.lb } : St α D) π
+                    exact (d5 π hc1).mono (fun x hx => ⟨hx, rfl, rfl, rfl⟩) (le_maxLB2_right _ _)
+          · -- the node was created by a dive: expand directly
+            refine expandCase ({ st with fr := rest } : St α D) hte hI.ok hF0 rfl hexp (fun π hsc => hsc) ?_ hnle h
+            intro π hπ hthru heff c hc1 hce
+            exact absurd hc1 (heff c hce)
+
+
 end Loop
 end Shangrla.Raire
